@@ -2033,3 +2033,5 @@ M('C15','notifier-dereg-closes-channel','runtime/valuenotifier/listener.go','''	
 		v.listeners.Delete(value)
 	}
 }''','notifier/close-means-notified')
+M('C19','onvariant-binary-guard-wrong-operand','core/safemath/safe_math.go',"""	if negationOverflows(y, x) {""","""	if negationOverflows(x, y) {""",'signed-div/guarded', base='C19-17')
+M('C19','onvariant-binary-guard-unsigned','core/safemath/safe_math.go',"""	return minusOne < 0 && factor == minusOne && v != 0 && v == -v""","""	return factor == minusOne && v != 0 && v == -v""",'signed-div/guard-signed-only', base='C19-17')
